@@ -51,6 +51,8 @@ struct Rep {
     /// realm / nonce the client must echo (long-term), candidate key algorithms
     nonce: Option<String>,
     algs: Vec<u16>,
+    /// realm of the challenge in force (long-term)
+    realm: &'static str,
 }
 
 fn reps(fingerprint: bool, reliable: bool) -> Vec<Rep> {
@@ -58,25 +60,27 @@ fn reps(fingerprint: bool, reliable: bool) -> Vec<Rep> {
     let cfg = |m: Mech| Cfg { transport: tr, mech: m, fingerprint, max_tx: 10 };
     let fp = if fingerprint { super::server::RFp::Valid } else { super::server::RFp::Absent };
     let ok = |m: RMac| Reply::plain(RClass::Success).with_mac(m).with_fp(fp);
-    let c401 = |n: NonceKind, p: PasKind| Reply::plain(RClass::Error(401)).with_chal(Chal { realm: true, nonce: n, pas: p }).with_fp(fp);
-    let c438 = |n: NonceKind, p: PasKind, m: RMac| Reply::plain(RClass::Error(438)).with_chal(Chal { realm: false, nonce: n, pas: p }).with_mac(m).with_fp(fp);
+    let c401 = |n: NonceKind, p: PasKind| Reply::plain(RClass::Error(401)).with_chal(Chal { realm: true, nonce: n, pas: p, realm_v: 0 }).with_fp(fp);
+    let c401v = |n: NonceKind, p: PasKind, v: u8| Reply::plain(RClass::Error(401)).with_chal(Chal { realm: true, nonce: n, pas: p, realm_v: v }).with_fp(fp);
+    let c438 = |n: NonceKind, p: PasKind, m: RMac| Reply::plain(RClass::Error(438)).with_chal(Chal { realm: false, nonce: n, pas: p, realm_v: 0 }).with_mac(m).with_fp(fp);
     let d = |i: usize, r: Reply| Event::Deliver { to: Target::Req(i), reply: r };
     let s = Event::Send { app: 0 };
     let cookie = NonceKind::Cookie(true, true, 1);
     vec![
-        Rep { name: "no-mechanism", cfg: cfg(Mech::None), prefix: vec![], nonce: None, algs: vec![] },
-        Rep { name: "short-term/unlearned", cfg: cfg(Mech::ShortTerm(None)), prefix: vec![], nonce: None, algs: vec![] },
-        Rep { name: "short-term/learned-MI", cfg: cfg(Mech::ShortTerm(None)), prefix: vec![s.clone(), d(0, ok(RMac::Mi))], nonce: None, algs: vec![] },
-        Rep { name: "short-term/learned-SHA256", cfg: cfg(Mech::ShortTerm(None)), prefix: vec![s.clone(), d(0, ok(RMac::Sha))], nonce: None, algs: vec![] },
-        Rep { name: "short-term/configured-MI", cfg: cfg(Mech::ShortTerm(Some(false))), prefix: vec![], nonce: None, algs: vec![] },
-        Rep { name: "short-term/configured-SHA256", cfg: cfg(Mech::ShortTerm(Some(true))), prefix: vec![], nonce: None, algs: vec![] },
-        Rep { name: "long-term/first-request", cfg: cfg(Mech::LongTerm), prefix: vec![], nonce: None, algs: vec![] },
+        Rep { name: "no-mechanism", cfg: cfg(Mech::None), prefix: vec![], nonce: None, algs: vec![], realm: REALM },
+        Rep { name: "short-term/unlearned", cfg: cfg(Mech::ShortTerm(None)), prefix: vec![], nonce: None, algs: vec![], realm: REALM },
+        Rep { name: "short-term/learned-MI", cfg: cfg(Mech::ShortTerm(None)), prefix: vec![s.clone(), d(0, ok(RMac::Mi))], nonce: None, algs: vec![], realm: REALM },
+        Rep { name: "short-term/learned-SHA256", cfg: cfg(Mech::ShortTerm(None)), prefix: vec![s.clone(), d(0, ok(RMac::Sha))], nonce: None, algs: vec![], realm: REALM },
+        Rep { name: "short-term/configured-MI", cfg: cfg(Mech::ShortTerm(Some(false))), prefix: vec![], nonce: None, algs: vec![], realm: REALM },
+        Rep { name: "short-term/configured-SHA256", cfg: cfg(Mech::ShortTerm(Some(true))), prefix: vec![], nonce: None, algs: vec![], realm: REALM },
+        Rep { name: "long-term/first-request", cfg: cfg(Mech::LongTerm), prefix: vec![], nonce: None, algs: vec![], realm: REALM },
         Rep {
             name: "long-term/retry-after-401-plain",
             cfg: cfg(Mech::LongTerm),
             prefix: vec![s.clone(), d(0, c401(NonceKind::Plain(1), PasKind::Absent))],
             nonce: super::server::nonce_string(NonceKind::Plain(1)),
             algs: vec![1],
+            realm: REALM,
         },
         Rep {
             name: "long-term/retry-after-401-cookie",
@@ -84,6 +88,7 @@ fn reps(fingerprint: bool, reliable: bool) -> Vec<Rep> {
             prefix: vec![s.clone(), d(0, c401(cookie, PasKind::Md5Sha256))],
             nonce: super::server::nonce_string(cookie),
             algs: vec![1, 2],
+            realm: REALM,
         },
         Rep {
             name: "long-term/subsequent-MD5",
@@ -91,6 +96,7 @@ fn reps(fingerprint: bool, reliable: bool) -> Vec<Rep> {
             prefix: vec![s.clone(), d(0, c401(NonceKind::Plain(1), PasKind::Absent)), s.clone(), d(1, ok(RMac::Mi))],
             nonce: super::server::nonce_string(NonceKind::Plain(1)),
             algs: vec![1],
+            realm: REALM,
         },
         Rep {
             name: "long-term/subsequent-SHA256",
@@ -98,6 +104,7 @@ fn reps(fingerprint: bool, reliable: bool) -> Vec<Rep> {
             prefix: vec![s.clone(), d(0, c401(cookie, PasKind::Md5Sha256)), s.clone(), d(1, ok(RMac::Sha))],
             nonce: super::server::nonce_string(cookie),
             algs: vec![1, 2],
+            realm: REALM,
         },
         Rep {
             name: "long-term/retry-after-438",
@@ -112,6 +119,25 @@ fn reps(fingerprint: bool, reliable: bool) -> Vec<Rep> {
             ],
             nonce: super::server::nonce_string(NonceKind::Cookie(true, true, 5)),
             algs: vec![1, 2],
+            realm: REALM,
+        },
+        // a second challenge naming the realm in another letter case / another realm: everything derived from the
+        // realm (key, USERHASH) must follow the realm the packet carries
+        Rep {
+            name: "long-term/retry-after-second-401-realm-in-other-case",
+            cfg: cfg(Mech::LongTerm),
+            prefix: vec![s.clone(), d(0, c401(cookie, PasKind::Md5Sha256)), s.clone(), d(1, c401v(NonceKind::Cookie(true, true, 6), PasKind::Md5Sha256, 1))],
+            nonce: super::server::nonce_string(NonceKind::Cookie(true, true, 6)),
+            algs: vec![1, 2],
+            realm: super::server::realm_name(1),
+        },
+        Rep {
+            name: "long-term/subsequent-after-second-401-other-realm",
+            cfg: cfg(Mech::LongTerm),
+            prefix: vec![s.clone(), d(0, c401(NonceKind::Plain(1), PasKind::Absent)), s.clone(), d(1, c401v(NonceKind::Plain(7), PasKind::Absent, 2)), s.clone(), d(2, ok(RMac::Mi))],
+            nonce: super::server::nonce_string(NonceKind::Plain(7)),
+            algs: vec![1],
+            realm: super::server::realm_name(2),
         },
     ]
 }
@@ -187,11 +213,11 @@ fn check_packet(rep_: &Rep, app: &[L], bytes: &[u8], class: u8, method: u16, ear
         // replaced, not the application's value
         match t.ty {
             codec::T_USERNAME if t.value != USER.as_bytes() => return Err(("application-USERNAME-not-replaced".into(), String::from_utf8_lossy(&t.value).into())),
-            codec::T_REALM if t.value != REALM.as_bytes() => return Err(("application-REALM-not-replaced".into(), String::from_utf8_lossy(&t.value).into())),
+            codec::T_REALM if t.value != rep_.realm.as_bytes() => return Err(("application-REALM-not-replaced".into(), String::from_utf8_lossy(&t.value).into())),
             codec::T_NONCE if Some(t.value.as_slice()) != rep_.nonce.as_deref().map(|s| s.as_bytes()) => {
                 return Err(("NONCE-is-not-the-server's".into(), String::from_utf8_lossy(&t.value).into()))
             }
-            codec::T_USERHASH if t.value != crate::refs::crypto::sha256(format!("{}:{}", USER, REALM).as_bytes()) => {
+            codec::T_USERHASH if t.value != crate::refs::crypto::sha256(format!("{}:{}", USER, rep_.realm).as_bytes()) => {
                 return Err(("USERHASH-is-not-SHA256(user:realm)".into(), "".into()))
             }
             _ => {}
@@ -215,7 +241,7 @@ fn check_packet(rep_: &Rep, app: &[L], bytes: &[u8], class: u8, method: u16, ear
     let keys: Vec<Vec<u8>> = match rep_.cfg.mech {
         Mech::None => vec![b"application-key".to_vec()],
         Mech::ShortTerm(_) => vec![PASS.as_bytes().to_vec()],
-        Mech::LongTerm => rep_.algs.iter().map(|a| lt_key(*a, REALM, PASS)).collect(),
+        Mech::LongTerm => rep_.algs.iter().map(|a| lt_key(*a, rep_.realm, PASS)).collect(),
     };
     for t in &p.tlvs[k..] {
         let ok = match t.ty {
@@ -345,7 +371,7 @@ pub fn run(ctx: &RunCtx) -> i32 {
         rep,
         Finish {
             level: "model_checking",
-            rule: format!("{} application attribute lists (every sequence of length <= {} over a 12-entry alphabet: two SOFTWARE values, PRIORITY, and pre-populated USERNAME / REALM / NONCE / USERHASH / PASSWORD-ALGORITHM / PASSWORD-ALGORITHMS / MESSAGE-INTEGRITY / MESSAGE-INTEGRITY-SHA256 / FINGERPRINT) x {} credential-state representatives (12 states reached by replaying short histories on the real client: no mechanism; short-term unlearned / learned MI / learned SHA256 / configured MI / SHA256; long-term first request / retry after plain 401 / retry after cookie 401 with anonymity and algorithms / subsequent MD5 / subsequent SHA256 / retry after 438; each x fingerprint on/off x both transports) x {{request, indication}} (methods 0x003 and 0xFFF on a subset in the quick tier); every emitted packet is parsed by the independent TLV reader: class / method / fresh id, application attributes first (one per type, first-insertion position, last value), then only the mechanism's credential attributes with the client's (not the application's) values, then at most one MI, SHA256, FINGERPRINT in that order, each verifying under the configured credentials by independent HMAC / CRC, no type twice, FINGERPRINT last when configured; retransmissions along timer runs are byte-identical", n_lists, max_len, n_reps),
+            rule: format!("{} application attribute lists (every sequence of length <= {} over a 12-entry alphabet: two SOFTWARE values, PRIORITY, and pre-populated USERNAME / REALM / NONCE / USERHASH / PASSWORD-ALGORITHM / PASSWORD-ALGORITHMS / MESSAGE-INTEGRITY / MESSAGE-INTEGRITY-SHA256 / FINGERPRINT) x {} credential-state representatives (14 states reached by replaying short histories on the real client: no mechanism; short-term unlearned / learned MI / learned SHA256 / configured MI / SHA256; long-term first request / retry after plain 401 / retry after cookie 401 with anonymity and algorithms / subsequent MD5 / subsequent SHA256 / retry after 438 / retry after a second 401 naming the realm in another letter case / subsequent request after a second 401 for another realm; each x fingerprint on/off x both transports) x {{request, indication}} (methods 0x003 and 0xFFF on a subset in the quick tier); every emitted packet is parsed by the independent TLV reader: class / method / fresh id, application attributes first (one per type, first-insertion position, last value), then only the mechanism's credential attributes with the client's (not the application's) values, then at most one MI, SHA256, FINGERPRINT in that order, each verifying under the configured credentials by independent HMAC / CRC, no type twice, FINGERPRINT last when configured; retransmissions along timer runs are byte-identical", n_lists, max_len, n_reps),
             assumptions: vec!["which credential attributes each long-term state requires is C08's question; C13 checks form, replacement and verification".into()],
             required_symbols: vec!["no-mechanism", "short-term/unlearned", "short-term/learned-SHA256", "long-term/first-request", "long-term/retry-after-401-cookie", "long-term/subsequent-SHA256", "long-term/retry-after-438", "long-term-indication-refused", "retransmission-identical"],
             min_outcomes: 12,
